@@ -1,2 +1,7 @@
 pub mod c01;
 pub mod c03;
+pub mod c08;
+pub mod c09;
+pub mod c10;
+pub mod c15;
+pub mod c20;
